@@ -26,6 +26,10 @@ write("C43",[shard_unit("zz_verif_C43.go",[{"name":"VerifC43ModeChanges","reach"
  ["metabase mode switch (reopens the bbolt file), blob storage open/close and write-cache mode switch are models that record their mode and may fail"],
  ["more than T changes / MAXFAIL failures","which operations are accepted after a partially failed switch (components then differ from the reported mode by design, docs/shard-modes.md); the gates are decided by C14","handleMetabaseFailure file operations"],
  ["(*meta.DB).SetMode, common.Storage.Open/Close/Init, writecache.Cache.SetMode -> models"])
+write("C15",[shard_unit("zz_verif_C15.go",[{"name":"VerifC15Put","reach":["stored","crashed"]},{"name":"VerifC15Delete","reach":["deleted","crashed"]}])],
+ ["write-cache and blob storage are maps address -> present with a symbolic crash point before and after every call and injectable failures; the metabase is the real one on the bbolt model; component calls are atomic"],
+ ["garbage collection and write-cache flush under crash (separate entries when present)","histories of more than one operation per run, real restart and recovery code","crash inside a component call (partial writes) - see C12"],
+ ["common.Storage, writecache.Cache -> models with crash points"])
 # C03: two units
 h=json.load(open('/verif/harness/C03/harness.json'))
 h['units']=[u for u in h['units'] if u['package']=='./pkg/core/object']+[meta_unit(["zz_verif_C03meta.go"],[{"name":"VerifC03Search","reach":["end"]}])]
